@@ -157,8 +157,9 @@ def run(ctx, tier):
     run_path_rules(ctx, __name__, 'recorded_amount_c04', ['G0', 'G1'], unroll=1)
     from .rules_c19 import tokeniser_premise
     tokeniser_premise(ctx)
-    from .rules_c08 import frame_premise
+    from .rules_c08 import frame_premise, state_code_premise
     frame_premise(ctx)
+    state_code_premise(ctx)
     ctx.assume('absolute extrusion mode, matched equal-length E-only or firmware cycles (the property quantifier); tracked E '
                'follows the file (C01.R6 / C19.R4); scripts and deferred codes do not touch E')
     ctx.assume('a printing move that leaves a region is re-positioned without extruding (documented behaviour)')
